@@ -5,8 +5,14 @@ Each scanner primitive agrees with its byte-by-byte definition on every group of
 (`ValidGroup`: 7-bit tags, DELETED, EMPTY), except that the portable tag match may additionally
 report a byte that differs from the tag only in its lowest bit, at a lane above a true match.
 The table layer of the model (and all theorems about it) uses a scanner only through `GroupSpec`.
+
+The portable word tricks are proved twice: `Hb/Proofs/Group.lean` closes them with `bv_decide` (native
+axioms), `Hb/Proofs/GroupKernel.lean` / `GroupKernelSpec.lean` re-prove the same statements with kernel
+reasoning only (bit extensionality of the packed word, `decide +kernel` over the eight lane bits, and
+the borrow chain of the tag-match subtraction in `Nat` by `omega`). The theorems below use the
+kernel-only versions, so their axioms are `propext`, `Classical.choice`, `Quot.sound`.
 -/
-import Hb.Proofs.Group
+import Hb.Proofs.GroupKernelSpec
 namespace Hb.C18
 open Hb
 
@@ -14,7 +20,7 @@ open Hb
 theorem sse2_spec : GroupSpec Sse2.ops := sse2_groupSpec
 
 /-- The portable 8-byte word scanner meets the byte-wise specification with the tag-match caveat. -/
-theorem generic_spec : GroupSpec Generic.ops := generic_groupSpec
+theorem generic_spec : GroupSpec Generic.ops := generic_groupSpec_k
 
 /-- SSE2 tag match is exactly the byte-wise one, for every tag byte. -/
 theorem sse2_matchTag_exact (g : List Nat) (t : Nat) (h : g.length = 16) :
@@ -25,7 +31,7 @@ theorem sse2_matchTag_exact (g : List Nat) (t : Nat) (h : g.length = 16) :
 theorem portable_false_positive : ∀ g t, ValidGroup 8 g → t < 128 →
     ∀ i ∈ Generic.ops.matchTag g t, g.getD i 0 ≠ t →
       (g.getD i 0 = t ^^^ 1 ∧ ∃ j, j < i ∧ g.getD j 0 = t) :=
-  generic_matchTag_false_positive
+  generic_matchTag_false_positive_k
 
 /-- match-empty / match-empty-or-deleted / match-full / bulk convert: both back-ends equal the same
     byte-wise function, hence each other lane for lane (on a common prefix the only difference is
@@ -39,12 +45,12 @@ theorem primitives_agree (g8 g16 : List Nat) (h8 : ValidGroup 8 g8) (h16 : Valid
     Sse2.ops.emptyLeadingZeros g16 = Spec.emptyLeadingZeros g16 ∧
     Generic.ops.emptyTrailingZeros g8 = Spec.emptyTrailingZeros g8 ∧
     Sse2.ops.emptyTrailingZeros g16 = Spec.emptyTrailingZeros g16 :=
-  ⟨generic_groupSpec.matchEmpty g8 h8, sse2_groupSpec.matchEmpty g16 h16,
-   generic_groupSpec.matchSpecial g8 h8, sse2_groupSpec.matchSpecial g16 h16,
-   generic_groupSpec.matchFull g8 h8, sse2_groupSpec.matchFull g16 h16,
-   generic_groupSpec.convert g8 h8, sse2_groupSpec.convert g16 h16,
-   generic_groupSpec.lz g8 h8, sse2_groupSpec.lz g16 h16,
-   generic_groupSpec.tz g8 h8, sse2_groupSpec.tz g16 h16⟩
+  ⟨generic_groupSpec_k.matchEmpty g8 h8, sse2_groupSpec.matchEmpty g16 h16,
+   generic_groupSpec_k.matchSpecial g8 h8, sse2_groupSpec.matchSpecial g16 h16,
+   generic_groupSpec_k.matchFull g8 h8, sse2_groupSpec.matchFull g16 h16,
+   generic_groupSpec_k.convert g8 h8, sse2_groupSpec.convert g16 h16,
+   generic_groupSpec_k.lz g8 h8, sse2_groupSpec.lz g16 h16,
+   generic_groupSpec_k.tz g8 h8, sse2_groupSpec.tz g16 h16⟩
 
 /-! The false positive is real (so the caveat is not vacuous), and SSE2 does not have it. -/
 example : Generic.ops.matchTag [0x10, 0x11, 255, 255, 255, 255, 255, 255] 0x10 = [0, 1] := by
